@@ -390,7 +390,7 @@ func runFlightWalk(c *vk.Ctx, prop string, cfg flightCfg, walk []*graph.Edge, se
 		c.Violation(sig, fmt.Sprintf("query of %s on %s (its responder's class for it: %s) while another query (%s) was in flight or had been answered: verdict %s, alone it yields %s",
 			exp.C, exp.V, own, other, real.Verdict, exp.Verdict), rep)
 	}
-	for _, e := range walk {
+	for ei, e := range walk {
 		var op []any
 		json.Unmarshal(e.Op, &op)
 		var exp flightExpect
@@ -481,6 +481,19 @@ func runFlightWalk(c *vk.Ctx, prop string, cfg flightCfg, walk []*graph.Edge, se
 				}
 			}
 		case "answer":
+			// when the reply to the other query in flight follows immediately in the specification, both replies are let go at the
+			// same moment: the two queries then judge their replies in parallel (what the first one still reads is not the second
+			// one's to reuse)
+			if ei+1 < len(walk) {
+				var nop []any
+				json.Unmarshal(walk[ei+1].Op, &nop)
+				if len(nop) > 1 && nop[0] == "answer" && nop[1] != op[1] {
+					if o := w.slots[nop[1].(string)]; o != nil && o.req != nil && o.early == nil {
+						close(o.req.release)
+						o.req = nil
+					}
+				}
+			}
 			r := w.answer(op[1].(string))
 			st.Real = r
 			hist = append(hist, st)
